@@ -2,12 +2,19 @@
   PygModel.Cache — `cache_func` (src/pyg_base/_cache.py:6-62): key normalisation `_prehash` and the cache
   state machine with an evaluation log.
 
-  `_key(*args, **kwargs) = _prehash((args, kwargs))`: lists and tuples become tuples, dicts become the sorted
-  tuple of their `(key, _prehash(value))` pairs.  The key is then used in a python dict, i.e. compared with
-  `==` / `hash`: `1 == 1.0 == True`.  `normKey` is `_prehash` followed by that identification, so that two
-  calls hit the same cache entry iff their `normKey`s are equal.  (NaN, whose dict membership depends on object
-  identity, and arguments that stay unhashable — sets, arrays: the code then evaluates every time — are not
-  modelled.)
+  `_key(*args, **kwargs) = (_prehash(args), sorted keyword items)`.  The model is of the REPAIRED code
+  (finding P3): `_prehash` keeps the container type — a tuple stays a tuple, a list becomes a `_hashable` that
+  remembers `list`, a dict a `_hashable` that remembers `dict` and holds the sorted `(key, _prehash(value))`
+  pairs — so that `[1]`, `(1,)` and `{'a': 1}`, `(('a', 1),)` are different keys.  (The pinned tree turned
+  lists AND tuples into tuples and dicts into tuples of pairs: `cache(f)((1,))` returned `f([1])`.)
+  The key is then used in a python dict, i.e. compared with `==` / `hash`: `1 == 1.0 == True`.  `normKey` is
+  `_prehash` followed by that identification, so that two calls hit the same cache entry iff their `normKey`s
+  are equal (theorem `callKey_eq_iff`: iff the calls are python-`==`, `sameComb`).
+
+  Unhashable arguments (ndarray, Series: `key not in self.cache` raises TypeError, the `except` path evaluates
+  the function and stores nothing — finding K5) are modelled by `cacheCallH` with a predicate saying which
+  calls are unhashable; the driver takes string cells starting with `~arr:` for arrays.  NaN (dict membership
+  depends on object identity) is not modelled.
 -/
 import PygModel.Bind
 import PygModel.Cmp
@@ -23,9 +30,9 @@ def normCell : Cell → Cell
 mutual
   def normKey : Val → Val
     | .cell c => .cell (normCell c)
-    | .list xs => .tuple (normKeyList xs)
+    | .list xs => .list (normKeyList xs)
     | .tuple xs => .tuple (normKeyList xs)
-    | .dict kvs => .tuple ((sortKV (normKeyKVs kvs)).map fun p => .tuple [.cell (.str p.1), p.2])
+    | .dict kvs => .dict (sortKV (normKeyKVs kvs))
   def normKeyList : List Val → List Val
     | [] => []
     | x :: xs => normKey x :: normKeyList xs
@@ -62,5 +69,37 @@ def runCache (f : Call → Res Val) : CacheSt → List Call → CacheSt × List 
     let (st1, r) := cacheCall f st c
     let (st2, rs) := runCache f st1 cs
     (st2, r :: rs)
+
+/-! ### unhashable arguments: the `except` path -/
+
+/-- `cache_func.wrapped` when some calls have an unhashable key (`unh c`): `key not in self.cache` raises
+`TypeError`, the handler returns `self.function(*args, **kwargs)`: one evaluation, nothing stored. -/
+def cacheCallH (unh : Call → Bool) (f : Call → Res Val) (st : CacheSt) (c : Call) : CacheSt × Res Val :=
+  if unh c then ({ st with evals := st.evals ++ [callKey c] }, f c) else cacheCall f st c
+
+def runCacheH (unh : Call → Bool) (f : Call → Res Val) : CacheSt → List Call → CacheSt × List (Res Val)
+  | st, [] => (st, [])
+  | st, c :: cs =>
+    let (st1, r) := cacheCallH unh f st c
+    let (st2, rs) := runCacheH unh f st1 cs
+    (st2, r :: rs)
+
+mutual
+  /-- the driver's convention: a string cell starting with `~arr:` stands for a numpy array -/
+  def Val.hasArr : Val → Bool
+    | .cell (.str s) => s.startsWith "~arr:"
+    | .cell _ => false
+    | .list xs => hasArrList xs
+    | .tuple xs => hasArrList xs
+    | .dict kvs => hasArrKVs kvs
+  def hasArrList : List Val → Bool
+    | [] => false
+    | x :: xs => x.hasArr || hasArrList xs
+  def hasArrKVs : List (String × Val) → Bool
+    | [] => false
+    | (_, v) :: kvs => v.hasArr || hasArrKVs kvs
+end
+
+def Call.hasArr (c : Call) : Bool := hasArrList c.args || hasArrKVs c.kw
 
 end Pyg
